@@ -118,7 +118,7 @@ def replay(ctx, prop):
     obj = json.load(open(ctx.replay))
     sc = obj.get("replay") or obj
     scen = {"name": "replay-" + str(sc.get("scenario")), "range": sc["range"], "conc": sc["conc"], "bg": sc.get("bg", False),
-            "steps": sc["steps"], "maxh": 12}
+            "steps": sc["steps"], "maxh": 12, "node": sc.get("node", False), "k": sc.get("k", 0)}
     sc_path = os.path.join(ctx.work, "scenarios.json")
     json.dump([scen], open(sc_path, "w"))
     rep = ctx.go_driver("das", env={"VERIF_SCENARIOS": sc_path, "VERIF_RANDOM": 0}, timeout=600,
